@@ -74,6 +74,58 @@ Proof.
   apply list_eqb_refl. apply str_pair_eqb_refl.
 Qed.
 
+(* ------------------------------------------------------------------ boolean table equality is equality *)
+Ltac eqb_solve :=
+  repeat match goal with
+  | H : (_ && _)%bool = true |- _ => apply andb_true_iff in H as [? ?]
+  | H : N.eqb _ _ = true |- _ => apply N.eqb_eq in H
+  | H : Z.eqb _ _ = true |- _ => apply Z.eqb_eq in H
+  | H : Bool.eqb _ _ = true |- _ => apply Bool.eqb_prop in H
+  | H : String.eqb _ _ = true |- _ => apply String.eqb_eq in H
+  end.
+
+Lemma comp_eqb_eq : forall a b, comp_eqb a b = true -> a = b.
+Proof. intros [] [] H. unfold comp_eqb in H. cbn in H. eqb_solve. subst. reflexivity. Qed.
+
+Lemma map_eqb_eq : forall a b : N * Z, map_eqb a b = true -> a = b.
+Proof. intros [] [] H. unfold map_eqb in H. cbn in H. eqb_solve. subst. reflexivity. Qed.
+
+Lemma subf_eqb_eq : forall a b, subf_eqb a b = true -> a = b.
+Proof.
+  intros [] [] H. unfold subf_eqb in H. cbn in H. eqb_solve. subst.
+  f_equal; [eapply list_eqb_eq; [apply map_eqb_eq|eassumption] | eapply list_eqb_eq; [apply comp_eqb_eq|eassumption]].
+Qed.
+
+Lemma fieldbase_eqb_eq : forall a b, fieldbase_eqb a b = true -> a = b.
+Proof.
+  intros [] [] H. unfold fieldbase_eqb in H. cbn in H. eqb_solve. subst.
+  f_equal; [eapply list_eqb_eq; [apply comp_eqb_eq|eassumption] | eapply list_eqb_eq; [apply subf_eqb_eq|eassumption]].
+Qed.
+
+Lemma mesg_entry_eqb_eq : forall a b, mesg_entry_eqb a b = true -> a = b.
+Proof.
+  intros [] [] H. unfold mesg_entry_eqb in H. cbn in H. eqb_solve. subst.
+  f_equal. eapply list_eqb_eq; [apply fieldbase_eqb_eq|eassumption].
+Qed.
+
+Theorem opt_table_eqb_eq : forall a b, opt_table_eqb a b = true -> a = Some b.
+Proof.
+  intros [t|] b H; [|discriminate]. cbn in H. f_equal.
+  eapply list_eqb_eq; [apply mesg_entry_eqb_eq|eassumption].
+Qed.
+
+Lemma str_pair_eqb_eq : forall a b, str_pair_eqb a b = true -> a = b.
+Proof. intros [] [] H. unfold str_pair_eqb in H. cbn in H. eqb_solve. subst. reflexivity. Qed.
+
+Lemma nameentry_eqb_eq : forall a b, nameentry_eqb a b = true -> a = b.
+Proof.
+  intros [[[[m f] n] u] s] [[[[m' f'] n'] u'] s'] H. cbn in H. eqb_solve. subst.
+  f_equal. eapply list_eqb_eq; [apply str_pair_eqb_eq|eassumption].
+Qed.
+
+Theorem names_eqb_eq : forall a b, names_eqb a b = true -> a = b.
+Proof. intros a b H. eapply list_eqb_eq; [apply nameentry_eqb_eq|exact H]. Qed.
+
 (* ------------------------------------------------------------------ the factory table as a function *)
 Lemma find_mesg_In : forall t m fs, find_mesg t m = Some fs -> In (m, fs) t.
 Proof.
